@@ -70,3 +70,44 @@ CORPUS = [
                 "Calculated and received SHA256 digest do not match.")
 """, "S"),
 ]
+# round 4 (C05.f): the handshake-outstanding flag is lowered on every way out of the exchange, named or not
+CORPUS += [
+    M("pending-flag-lowered-by-hand", L, """        try:
+            self._handshake_pending = True
+            self.write(token, packet_type=self.PacketType.HANDSHAKE_REQUEST)
+            response = await self.read()
+        except ProtocolError as e:
+            # Promote any protocol error to auth error
+            raise AuthenticationError(e) from e
+        finally:
+            self._handshake_pending = False
+""", """        self._handshake_pending = True
+        try:
+            self.write(token, packet_type=self.PacketType.HANDSHAKE_REQUEST)
+            response = await self.read()
+        except ProtocolError as e:
+            # Promote any protocol error to auth error
+            self._handshake_pending = False
+            raise AuthenticationError(e) from e
+        self._handshake_pending = False
+"""),
+    M("n-pending-flag-raised-before-try", L, """        try:
+            self._handshake_pending = True
+            self.write(token, packet_type=self.PacketType.HANDSHAKE_REQUEST)""", """        self._handshake_pending = True
+        try:
+            self.write(token, packet_type=self.PacketType.HANDSHAKE_REQUEST)""", "S"),
+    M("n-pending-flag-catch-all", L, """        except ProtocolError as e:
+            # Promote any protocol error to auth error
+            raise AuthenticationError(e) from e
+        finally:
+            self._handshake_pending = False
+""", """        except ProtocolError as e:
+            # Promote any protocol error to auth error
+            self._handshake_pending = False
+            raise AuthenticationError(e) from e
+        except BaseException:
+            self._handshake_pending = False
+            raise
+        self._handshake_pending = False
+""", "S"),
+]
